@@ -179,9 +179,24 @@ func cmdCheck(args []string) int {
 		}
 	}
 	engineProblem := false
-	for _, e := range rr.EngineErrs {
-		fmt.Println("ENGINE-ERROR", e)
-		engineProblem = true
+	{
+		seenErr := map[string]int{}
+		for _, e := range rr.EngineErrs {
+			k := e
+			if i := strings.Index(k, " [in "); i > 0 {
+				k = k[:i]
+			}
+			seenErr[k]++
+			if seenErr[k] == 1 && len(seenErr) <= 12 {
+				fmt.Println("ENGINE-ERROR", e)
+			}
+			engineProblem = true
+		}
+		for k, n := range seenErr {
+			if n > 1 {
+				fmt.Printf("ENGINE-ERROR (%d paths) %s\n", n, k)
+			}
+		}
 	}
 	if rr.Unknowns > 0 || rr.Solver.Errors > 0 {
 		fmt.Printf("ENGINE-ERROR %d inconclusive solver answers, %d solver error lines\n", rr.Unknowns, rr.Solver.Errors)
